@@ -410,7 +410,7 @@ def shared(ctx):
     core.import_rules(ctx, [c03.r2_batch_commutativity], "X03")
     core.import_rules(ctx, [c04.r1_no_bypass, c04.r2_verdict], "X04")
     core.import_rules(ctx, [c05.r1_fee_gate], "X05")
-    core.import_rules(ctx, [c13.r3_lock_gate], "X13")
+    core.import_rules(ctx, [c13.r3_lock_gate, c13.r3_new_stakes_flow], "X13")
     # "previous set minus every input plus every output" is realised by CoinMapping::insert_coin / remove_coin: their protocol (the key is written /
     # cleared on every path, whatever the TIP-906 flag) and the confinement of tree writes are necessary
     from rules.props import c20
